@@ -145,8 +145,9 @@ class TreeScenario(Scenario):
     budget_s = 300
     check_definedness = False
 
-    def __init__(self, batches, other=0, single_inserts=False, realvol=False):
+    def __init__(self, batches, other=0, single_inserts=False, realvol=False, other_empty=False):
         self.realvol = realvol
+        self.other_empty = other_empty
         self.batches = [tuple(b) for b in batches]
         self.n = sum(b[0] for b in self.batches)
         self.other = other
@@ -193,6 +194,10 @@ class TreeScenario(Scenario):
         res["_raw"] = [int(k) for k in overlaps]
         root = tree.get_root_aabb() if self.n else None
         res["_root"] = root
+        if self.other_empty:
+            t2 = T.AabbTree()                       # a tree without boxes as the ARGUMENT of the tree-against-tree query
+            hit2, o1, o2, pairs = tree.overlaps_aabb_tree(t2)
+            res["empty_other"] = [bool(hit2), len(o1), len(o2), len(pairs)]
         if self.other:
             t2 = T.AabbTree()
             t2.insert_aabbs(cx.arr(inp["other"]), [("o", i) for i in range(self.other)])
@@ -281,6 +286,8 @@ class TreeScenario(Scenario):
                 conds.append(AND(*[root[a][1] >= x for x in his]))
                 conds.append(OR(*[root[a][1] == x for x in his]))
             ob.require("root_is_hull", exact=AND(*conds))
+        if self.other_empty:
+            ob.require("query_against_empty_tree_is_empty", exact=(res["empty_other"] == [False, 0, 0, 0]))
         if self.other:
             pairs = res["pairs"]
             goodp = all(isinstance(a, int) and isinstance(b, int) for a, b in pairs)
@@ -336,7 +343,8 @@ class VolumeContract(Scenario):
 def make(family, args):
     if family == "volume_contract":
         return VolumeContract()
-    return TreeScenario(args["batches"], args.get("other", 0), args.get("single", False), args.get("realvol", False))
+    return TreeScenario(args["batches"], args.get("other", 0), args.get("single", False), args.get("realvol", False),
+                        args.get("other_empty", False))
 
 
 def _compositions(n, kmax):
@@ -357,6 +365,8 @@ def jobs(tier, seed):
     J.append({"family": "empty", "args": {"batches": []}})
     J.append({"family": "empty", "args": {"batches": [[0, "none", False]]}})
     J.append({"family": "empty", "args": {"batches": [], "other": 1}})
+    J.append({"family": "empty", "args": {"batches": [[2, "none", True]], "other_empty": True}})
+    J.append({"family": "empty", "args": {"batches": [], "other_empty": True}})
     for n in range(1, nmax + 1):
         for mode in modes:
             for wd in (True, False):
